@@ -50,6 +50,7 @@ func runC06(c *Ctx) {
 	c.c06Overlap()
 	c.c06MoveKeepsWhatStays()
 	c.c06MoveGuards()
+	c.c06CopyToDirectory()
 }
 
 // c06Overlap: "a copy never changes its source, also when source and destination overlap" / "a call terminates".
@@ -1028,5 +1029,76 @@ func (c *Ctx) c06MoveGuards() {
 		})
 		c.check(n > 0 && bad == "", "Z10", fname(mf)+"/source-removed-as-directory", c.pos(mf.Pos()), "the source is removed with the backend's Remove (fails if anything is left)",
 			"the source folder is removed recursively at "+bad+": an entry whose move was a no-op (d/sub/sub when d/sub is moved into d: it already is where it was asked to go) is deleted with it and the move reports success")
+	}
+}
+
+// c06CopyToDirectory (Z11): CopyToDirectory is `mkdir -p dest && cp -r src dest/`. The generic copy gives a missing
+// destination to a directory source *as* its copy (cp -r src dest with dest missing: dest is the copy of src): only because
+// the destination directory exists by the time the copy runs does a directory source land at dest/<name of src>. The creation
+// of the destination directory precedes the copy on every path, and the copy runs only where it succeeded.
+func (c *Ctx) c06CopyToDirectory() {
+	c.rule("Z11", "CopyToDirectory creates the destination directory before it copies (a directory source is then placed inside it, whether it existed or not)", 1)
+	f := c.fn(fsPkgRel, "(*VFS).CopyToDirectoryWithContext")
+	if f == nil {
+		return
+	}
+	c.FuncsSeen[fname(f)] = true
+	di := paramIndexByName(f, "destDirectory")
+	if di < 0 {
+		for i, p := range f.Params {
+			if strings.Contains(strings.ToLower(p.Name()), "dest") {
+				di = i
+			}
+		}
+	}
+	key := fname(f) + "/directory-first"
+	if di < 0 {
+		c.violate("Z11", key, c.pos(f.Pos()), "no destination parameter found")
+		return
+	}
+	dest := f.Params[di]
+	var mk, cp *ssa.Call
+	allInstrs(f, func(in ssa.Instruction) {
+		cl, ok := in.(*ssa.Call)
+		if !ok {
+			return
+		}
+		name, args, isFs := fsMethodCall(cl)
+		if !isFs {
+			if g := staticCallee(&cl.Call); g != nil && inPkg(fsPkgRel)(g) {
+				name, args = g.Name(), cl.Call.Args
+			} else {
+				return
+			}
+		}
+		touchesDest := false
+		for _, a := range args {
+			for _, l := range sources(a, deriveOpts{through: func(n string) bool {
+				return strings.HasPrefix(n, "strings.") || strings.HasPrefix(n, "path/filepath.") || n == "fmt.Sprintf"
+			}}) {
+				if l == ssa.Value(dest) {
+					touchesDest = true
+				}
+			}
+		}
+		if !touchesDest {
+			return
+		}
+		switch {
+		case name == "MkDir" || name == "MkDirAll":
+			mk = cl
+		case strings.HasPrefix(name, "Copy"):
+			cp = cl
+		}
+	})
+	switch {
+	case cp == nil:
+		c.violate("Z11", key, c.pos(f.Pos()), "CopyToDirectoryWithContext no longer copies into its destination")
+	case mk == nil:
+		c.violate("Z11", key, c.ipos(cp), "the destination directory is not created before the copy: for a directory source and a destination that does not exist yet the generic copy makes the destination the copy of the source (its content is merged into the destination) instead of placing the source inside it — and the outcome differs from a second, identical call")
+	default:
+		errs := errResultsOf(mk)
+		c.check(dominates(mk, cp) && len(errs) > 0 && onNilSide(errs[0], cp), "Z11", key, c.ipos(cp), "MkDir(destination) succeeded before the copy",
+			"the copy can run without the destination directory having been created successfully first")
 	}
 }
